@@ -13,8 +13,10 @@ def canon(host):
     if host == "":
         return ""
     try:
-        return ipaddress.ip_address(host.split("%")[0]).compressed + \
-            ("%" + host.split("%")[1] if "%" in host else "")
+        a = ipaddress.ip_address(host.split("%")[0])
+        if a.version == 6 and a.ipv4_mapped is not None and "%" not in host:
+            a = a.ipv4_mapped          # what net.TCPAddr.String() reports for a dual-stack socket
+        return a.compressed + ("%" + host.split("%")[1] if "%" in host else "")
     except ValueError:
         return "?" + host
 
